@@ -42,8 +42,8 @@ CLAIM = ("Every material of the (G, nu) lattice is specified to Blake(...) throu
 LEVEL_NOTE = ("trusted: numpy, the transcription of the textbook identities and of the documented wave equation in props/C15.py; "
               "assumed: defects confined to parameter values, radii or times between lattice values are not seen; finite differences "
               "decide the differential relations to 1e-6/1e-7, not exactly")
-BOUND = {"quick": "15 materials x (15 pairs + default) x K=1 deviations of (cavity_radius, ref_density, pressure_scale); 4 times x 44 radii",
-         "thorough": "21 materials x (15 pairs + default) x full product of the non-material lattice; 6 times x 84 radii"}
+BOUND = {"quick": "21 materials x (15 pairs + default) x full product of the 2x2x2 non-material lattice; 6 times x 84 radii; 5 non-positive-definite materials x 15 pairs",
+         "thorough": "45 materials x (15 pairs + default) x full product of the 3x3x3 non-material lattice; 8 times x 164 radii; 5 non-positive-definite materials x 15 pairs"}
 RULE = ("tasks = (material, pair, non-material vector); one evaluation = one Blake(...) construction or one solver call; a case is "
         "non-trivial when the construction succeeded (key material|pair|vector) or when a lattice point lies in the disturbed region "
         "with non-zero displacement (key material|pair|vector|time|point); ValueError constructions are counted as inadmissible")
@@ -56,13 +56,16 @@ ASSUMPTIONS = [
 
 NAMES = ["lame_mod", "shear_mod", "youngs_mod", "poisson_ratio", "bulk_mod", "long_mod"]
 PAIRS = [list(p) for p in itertools.combinations(NAMES, 2)]
-G_VALUES = [25.0e9, 3.0e9, 80.0e9]
-NU_VALUES = {"quick": [0.25, 0.1, 0.45, -0.3, 0.0], "thorough": [0.25, 0.1, 0.45, -0.3, 0.0, 0.49, -0.9]}
+# the quick tier is what used to be the thorough one (7 s on 12 cores); the thorough tier adds two shear moduli, two Poisson
+# ratios, a third value of every non-material parameter (full product), two more times and twice the radii
+G_VALUES = {"quick": [25.0e9, 3.0e9, 80.0e9], "thorough": [25.0e9, 3.0e9, 80.0e9, 1.0e9, 200.0e9]}
+NU_VALUES = {"quick": [0.25, 0.1, 0.45, -0.3, 0.0, 0.49, -0.9], "thorough": [0.25, 0.1, 0.45, -0.3, 0.0, 0.49, -0.9, 0.35, -0.6]}
 NONPD_MATERIALS = [(25.0e9, 0.6), (25.0e9, 1.0), (25.0e9, -1.2), (-25.0e9, 0.25), (25.0e9, 0.75)]
-NONMAT = {"cavity_radius": [0.1, 1.0], "ref_density": [3000.0, 7800.0], "pressure_scale": [1.0e6, 1.0e5]}
-K_NONMAT = {"quick": 1, "thorough": 3}
-TIME_FACTORS = {"quick": [0.0, 0.4, 1.0, 2.5], "thorough": [0.0, 0.1, 0.4, 1.0, 2.5, 40.0]}
-NPTS = {"quick": 40, "thorough": 80}
+NONMAT = {"quick": {"cavity_radius": [0.1, 1.0], "ref_density": [3000.0, 7800.0], "pressure_scale": [1.0e6, 1.0e5]},
+          "thorough": {"cavity_radius": [0.1, 1.0, 0.02], "ref_density": [3000.0, 7800.0, 1000.0], "pressure_scale": [1.0e6, 1.0e5, 2.0e7]}}
+K_NONMAT = {"quick": 3, "thorough": 3}
+TIME_FACTORS = {"quick": [0.0, 0.1, 0.4, 1.0, 2.5, 40.0], "thorough": [0.0, 0.03, 0.1, 0.4, 0.7, 1.0, 2.5, 40.0]}
+NPTS = {"quick": 80, "thorough": 160}
 WINDOW = 8.0                    # L = WINDOW * a; transit time T = L / c_L (T = 1.6e-4 s = the documented snapshot time for the default)
 FD_STEPS = (1.0e-2, 3.0e-3, 1.0e-3)   # h / a ; k = h / c_L
 
@@ -85,8 +88,8 @@ def reference(G, nu):
 
 def tasks(tier, seed):
     out = []
-    devs = lattice.enumerate_checked(NONMAT, K_NONMAT[tier])
-    mats = [(G, nu) for nu in NU_VALUES[tier] for G in G_VALUES]
+    devs = lattice.enumerate_checked(NONMAT[tier], K_NONMAT[tier])
+    mats = [(G, nu) for nu in NU_VALUES[tier] for G in G_VALUES[tier]]
     mats.sort(key=lambda m: (m != (25.0e9, 0.25),))          # default material first
     for G, nu in mats:
         pairs = ([["default"]] if (G, nu) == (25.0e9, 0.25) else []) + PAIRS
@@ -303,7 +306,7 @@ def run_task(task):
     tier = task.get("tier", "quick")
     G, nu, pair = task["G"], task["nu"], task["pair"]
     ref = reference(G, nu)
-    nonmat = lattice.full_cfg(NONMAT, task["dev"])
+    nonmat = lattice.full_cfg(NONMAT[task.get("tier", "quick")], task["dev"])
     kw = dict(nonmat)
     if pair != ["default"]:
         for n in pair:
